@@ -161,19 +161,28 @@ def leanchecker(modules):
 # ----------------------------------------------------------------------------- harness
 
 def harness_build():
+    """two builds of the harness (and, through path dependencies, of /repo's current working tree): the dev profile
+    (debug assertions and overflow checks ON - what `cargo test` exercises) and the release profile (both OFF - what
+    users ship); code under `cfg(debug_assertions)` / inside `debug_assert!` exists in one of them only"""
     with BuildLock("cargo"):
         rc, out = sh(["cargo", "build", "--offline"], cwd=HARNESS, timeout=3600)
+        if rc == 0:
+            rc, out2 = sh(["cargo", "build", "--offline", "--release"], cwd=HARNESS, timeout=3600)
+            out += out2
     return rc == 0, out
 
 
 HARNESS_BIN = os.path.join(HARNESS, "target", "debug", "h5vharness")
+HARNESS_REL_BIN = os.path.join(HARNESS, "target", "release", "h5vharness")
 DRIVER_BIN = os.path.join(LEAN, ".lake", "build", "bin", "h5vdriver")
 
 
-def _run_shard(binary, lines, timeout):
+def _run_shard(binary, lines, timeout, extra_env=None):
     data = "".join(l + "\n" for l in lines)
     try:
         env = dict(os.environ)
+        env.pop("H5V_LOG", None)
+        env.update(extra_env or {})
         # per-case watchdog of the harness: quick cases take < 3 s each, thorough ones up to ~30 s
         env.setdefault("H5V_CASE_TIMEOUT", "25" if os.environ.get("VERIF_TIER_RUNNING", "quick") == "quick" else "150")
         p = subprocess.run([binary], input=data.encode("utf-8"), stdout=subprocess.PIPE,
@@ -183,7 +192,7 @@ def _run_shard(binary, lines, timeout):
     out = p.stdout.decode("utf-8", "replace").split("\n")
     if out and out[-1] == "":
         out.pop()
-    if binary == HARNESS_BIN:
+    if binary in (HARNESS_BIN, HARNESS_REL_BIN):
         # protocol lines of the harness start with 0x01; anything else is library chatter on stdout
         out = [l[1:] for l in out if l.startswith("\x01")]
     if p.returncode != 0 or len(out) != len(lines):
@@ -192,7 +201,7 @@ def _run_shard(binary, lines, timeout):
     return out, None
 
 
-def run_binary(binary, lines, timeout=900, shards=None):
+def run_binary(binary, lines, timeout=900, shards=None, extra_env=None):
     """run `binary` over all case lines, sharded over the cores (round-robin, so that a family of
     expensive cases is spread over all shards). A shard that crashes or hangs is bisected down to
     the single offending case, which gets the result 'ABORT <reason>'."""
@@ -204,7 +213,7 @@ def run_binary(binary, lines, timeout=900, shards=None):
     results = [None] * n
 
     def work(idx):
-        out, err = _run_shard(binary, [lines[i] for i in idx], timeout)
+        out, err = _run_shard(binary, [lines[i] for i in idx], timeout, extra_env)
         if err is None:
             for i, o in zip(idx, out):
                 results[i] = o
@@ -239,6 +248,17 @@ def load_known():
 
 
 # ----------------------------------------------------------------------------- the check driver
+
+_EN_RE = re.compile(r"(?:(?<=;)|^)en,\d+(?:;|$)")
+
+
+def default_log_equiv(line, plain, logged):
+    """the library's own debug! statements call the read-only sink query `elem_name` (trace item `en,<handle>`): a
+    logged run may contain more of those queries in a sink-call trace; nothing else may differ"""
+    if plain is None or logged is None:
+        return plain == logged
+    return _EN_RE.sub("", plain) == _EN_RE.sub("", logged)
+
 
 class Failure:
     def __init__(self, kind, case, detail, impl=None, model=None, broken=None):
@@ -356,6 +376,23 @@ class Check:
         t = time.time()
         self.impl = run_impl(lines, timeout=getattr(m, "SHARD_TIMEOUT", 900))
         self.t_impl = time.time() - t
+        # the same cases (an evenly spaced sub-sample) with a `log` logger installed that evaluates every record: the
+        # arguments of the library's debug!/trace! statements run only then (RUST_LOG=trace in an application)
+        cap = getattr(m, "LOGGED_MAX", 6000 if self.tier == "quick" else 60000)
+        idx = [i for i, l in enumerate(lines) if not l.startswith("tendril")]
+        if len(idx) > cap:
+            step = len(idx) / float(cap)
+            idx = sorted(set(idx[int(k * step)] for k in range(cap)))
+        self.logged_idx = idx
+        self.impl_logged = run_impl([lines[i] for i in idx], timeout=getattr(m, "SHARD_TIMEOUT", 900),
+                                    extra_env={"H5V_LOG": "1"}) if idx else []
+        # ... and with the release build of the harness and the library (no debug assertions, no overflow checks)
+        ridx = list(range(len(lines)))
+        if len(ridx) > cap:
+            step = len(ridx) / float(cap)
+            ridx = sorted(set(ridx[int(k * step)] for k in range(cap)))
+        self.rel_idx = ridx
+        self.impl_rel = run_binary(HARNESS_REL_BIN, [lines[i] for i in ridx], timeout=getattr(m, "SHARD_TIMEOUT", 900)) if ridx else []
         t = time.time()
         model_lines = [m.model_line(l) for l in lines] if hasattr(m, "model_line") else lines
         if self.driver_ok and getattr(m, "HAS_MODEL", True):
@@ -385,6 +422,26 @@ class Check:
                 corr_bad.append((line, io, mo))
         self.n_nontrivial = len(distinct)
         self.tags = tags
+        n_log_bad = 0
+        log_equiv = getattr(m, "log_equiv", default_log_equiv)
+        for i, lo in zip(getattr(self, "logged_idx", []), getattr(self, "impl_logged", [])):
+            if lo != self.impl[i] and not log_equiv(self.cases[i][0], self.impl[i], lo) and n_log_bad < 50:
+                n_log_bad += 1
+                self.failures.append(Failure(
+                    "oracle", self.cases[i][0],
+                    "the result depends on whether a `log` logger that evaluates every record is installed (H5V_LOG=1, as "
+                    "RUST_LOG=trace in an application): with the logger: %s" % (lo or "")[:300], impl=self.impl[i], model=self.model[i]))
+        self.n_logged = len(getattr(self, "logged_idx", []))
+        n_rel_bad = 0
+        rel_equiv = getattr(m, "rel_equiv", lambda line, dev, rel: False)
+        for i, ro in zip(getattr(self, "rel_idx", []), getattr(self, "impl_rel", [])):
+            if ro != self.impl[i] and not rel_equiv(self.cases[i][0], self.impl[i], ro) and n_rel_bad < 50:
+                n_rel_bad += 1
+                self.failures.append(Failure(
+                    "oracle", self.cases[i][0],
+                    "the result differs between the dev-profile build (debug assertions, overflow checks) and the release build "
+                    "of the library: release: %s" % (ro or "")[:300], impl=self.impl[i], model=self.model[i]))
+        self.n_release = len(getattr(self, "rel_idx", []))
         # cross-case oracle (e.g. chunked vs whole): returns [(line, why, impl_out)]
         if hasattr(m, "oracle_all"):
             for line, why, io in m.oracle_all(self.cases, self.impl):
@@ -481,6 +538,8 @@ class Check:
                 "samples": samples[:6],
                 "case_families": self.tags,
                 "correspondence_disagreements": self.n_corr_bad,
+                "rerun_with_evaluating_logger": getattr(self, "n_logged", 0),
+                "rerun_with_release_build": getattr(self, "n_release", 0),
                 "exhaustive": bool(getattr(m, "EXHAUSTIVE", False)),
                 "explanation": getattr(m, "EXPLANATION", ""),
                 "timing_s": {"impl": round(self.t_impl, 2), "model": round(self.t_model, 2)},
@@ -523,6 +582,14 @@ def replay(mod, path):
     io = run_impl([line])[0]
     mo = run_model([mod.model_line(line) if hasattr(mod, "model_line") else line])[0]
     print("case : %s\nimpl : %s\nmodel: %s" % (line, io, mo))
+    ro = run_binary(HARNESS_REL_BIN, [line])[0]
+    if ro != io and not getattr(mod, "rel_equiv", lambda line, dev, rel: False)(line, io, ro):
+        print("release build: %s\nprofile-independence: VIOLATED" % ro)
+        return 1
+    lo = run_impl([line], extra_env={"H5V_LOG": "1"})[0]
+    if lo != io and not getattr(mod, "log_equiv", default_log_equiv)(line, io, lo):
+        print("with a logger installed (H5V_LOG=1): %s\nlogger-independence: VIOLATED" % lo)
+        return 1
     why = mod.oracle(line, io)
     print("oracle: %s" % (why or "holds"))
     compare = getattr(mod, "compare", lambda line, a, b: a == b)
